@@ -398,6 +398,12 @@ class Interp(_Interp):
             return isinstance(args[0], (FuncVal, Closure, Partial, ClassVal, BoundBuiltin, ExtRef))
         if name == "id":
             return App("id", (_h(args[0]),))
+        if name == "hash":
+            if isinstance(args[0], Inst):
+                m = self.repo.lookup_method(args[0].ci, "__hash__")
+                if m is not None:
+                    return self.call_function(m, [args[0]], {})
+            return App("hash", (_h(args[0]),))
         raise Unsupported(f"builtin {name}", node, fi)
 
     # ------------------------------------------------------------------ methods of builtin / abstract values
@@ -483,7 +489,11 @@ class Interp(_Interp):
                 kind, items = self.iterate(args[0], node, frame)
                 if kind != "concrete":
                     raise Unsupported("dict.fromkeys of an unknown iterable", node, fi)
-                return {_hashable(k): (args[1] if len(args) > 1 else None) for k in items}
+                out_d: dict = {}
+                for k in items:
+                    if self.dict_key(out_d, _hashable(k)) is _MISSING:
+                        out_d[_hashable(k)] = args[1] if len(args) > 1 else None
+                return out_d
             if recv is str and name == "join":
                 return self.call_method_builtin(args[0], "join", args[1:], kwargs, node, frame)
         raise Unsupported(f"method {name} of a {type(recv).__name__} value", node, fi)
